@@ -43,6 +43,7 @@ atexit.register(_cleanup)
 
 def quiet_redun():
     logging.getLogger("redun").setLevel(logging.CRITICAL + 10)
+    logging.getLogger("redun").disabled = True
     logging.getLogger("alembic").setLevel(logging.CRITICAL + 10)
     logging.getLogger("sqlalchemy").setLevel(logging.CRITICAL + 10)
 
